@@ -15,8 +15,9 @@ Definition isize_min : Z := (- 2 ^ 63)%Z.
 Definition binop_name (o : binop) : string :=
   match o with BAdd => "$sum" | BSub => "$difference" | BMul => "$product" end.
 
-(* Format<IntegerTerm>: negative numerals are `$uminus(|n|)` (n.abs() panics for isize::MIN in
-   debug builds: see [no_panic]) *)
+(* Format<IntegerTerm>: negative numerals are `$uminus(|n|)` with |n| = n.unsigned_abs(), a usize,
+   so that isize::MIN renders as `$uminus(9223372036854775808)` (finding F3b, repaired: the former
+   `n.abs()` overflowed on isize::MIN and panicked in debug builds) *)
 Fixpoint print_iterm (t : iterm) : list token :=
   match t with
   | INum z => if (z <? 0)%Z then [KWord "$uminus"; KLPar; KNum (Z.to_N (- z)); KRPar]
@@ -127,32 +128,11 @@ Fixpoint print_formula (f : formula) : list token :=
       parens (mandatory_parentheses r || (3 <=? precedence r)%nat) (print_formula r)
   end.
 
-(* the debug-build panic of `n.abs()` *)
-Fixpoint iterm_no_panic (t : iterm) : bool :=
-  match t with
-  | INum z => negb (z =? isize_min)%Z
-  | IVar _ | IFun _ => true
-  | IUn _ a => iterm_no_panic a
-  | IBin _ l r => iterm_no_panic l && iterm_no_panic r
-  end.
-Definition gterm_no_panic (t : gterm) : bool := match t with GInt a => iterm_no_panic a | _ => true end.
-Definition aformula_no_panic (a : aformula) : bool :=
-  match a with
-  | AAtom _ ts => forallb gterm_no_panic ts
-  | ACmp t gs => gterm_no_panic t && forallb (fun g => gterm_no_panic (gterm_of g)) gs
-  | _ => true
-  end.
-Fixpoint no_panic (f : formula) : bool :=
-  match f with
-  | FAtomic a => aformula_no_panic a
-  | FNot g => no_panic g
-  | FBin _ l r => no_panic l && no_panic r
-  | FQ _ _ g => no_panic g
-  end.
-
-(* Format(&formula): None = panic *)
-Definition tptp_print (f : formula) : option (list token) :=
-  if no_panic f then Some (print_formula f) else None.
+(* Format(&formula).  The result type is still an option (None = panic) because the callers
+   (Model/ProblemPrint.v, the correspondence ops) were written when rendering could panic on the
+   numeral isize::MIN (finding F3b); since the repair rendering is total: Proofs/TptpMain.v,
+   [tptp_print_total]. *)
+Definition tptp_print (f : formula) : option (list token) := Some (print_formula f).
 Definition tptp_format (f : formula) : option string := option_map render (tptp_print f).
 
 (* ================= the intended TFF reading ================= *)
@@ -401,4 +381,4 @@ Fixpoint wf_tptp (f : formula) : bool :=
   | FQ _ vs g => negb (Nat.eqb (List.length vs) 0) && forallb (fun v => is_upper_word (vname v)) vs && wf_tptp g
   end.
 
-(* EXTRACT: tptp_print tptp_format tff_of_formula tff_read print_formula no_panic read_formula wf_tptp tff_of_var *)
+(* EXTRACT: tptp_print tptp_format tff_of_formula tff_read print_formula read_formula wf_tptp tff_of_var *)
